@@ -384,6 +384,9 @@ func (re *Regexp) findAllRunesIndex(runner *Runner, input []rune, startAt, n int
 		startAt = m.textpos
 		previousMatchLength = m.RuneLength
 	}
+	if len(out) == 0 {
+		return nil, nil
+	}
 	return out, nil
 }
 
